@@ -227,8 +227,10 @@ theorem F1.handleMq (g : Gw) (p : MqPkt) : F1 0 g (g.handleMq p) := by
     · exact F1.refl g
   · exact F1.snSend g _ _
   · split
-    · exact F1.refl g
-    · exact F1.snSend g _ _
+    · exact F1.of_eq rfl rfl
+    · split
+      · exact F1.refl g
+      · exact F1.snSend g _ _
   · exact F1.handleBrokerPublish g _ _ _ _ _ _
   · split
     · split
@@ -252,7 +254,7 @@ theorem F1.handleEvent (g : Gw) (ev : Event) : F1 (publishDatagram ev) g (g.hand
   · split
     · rename_i hd p hdec
       simp only [publishDatagram, hdec]
-      exact F1.handleSn g p
+      exact (F1.handleSn g p).after (F1.keepBrokerAlive _)
     · exact (F1.fail g _).mono (Nat.zero_le _)
   · exact F1.handleMq g _
   · exact F1.fail g _
